@@ -28,7 +28,64 @@ class RepoWorld(World):
         super().__init__()
         self.method_table = {}
         self._setup_onnx_ir_enums()
-        self.exc_classes.update({})
+        self.isinstance_hooks, self.getattr_hooks, self.call_ref_hooks = [], [], []
+        self.method_hooks, self.getitem_hooks, self.setitem_hooks, self.truthy_hooks = [], [], [], []
+        self.hasattr_hooks, self.callable_hooks = [], []
+        self.path_getters = {}
+
+    def isinstance_hook(self, ex, v, nm):
+        for h in self.isinstance_hooks:
+            r = h(ex, v, nm)
+            if r is not None:
+                return r
+        return None
+
+    def getattr_builtin(self, ex, args):
+        for h in self.getattr_hooks:
+            r = h(ex, args)
+            if r is not None:
+                return r
+        return None
+
+    def call_ref(self, ex, fn, args, kwargs):
+        for h in self.call_ref_hooks:
+            r = h(ex, fn, args, kwargs)
+            if r is not None:
+                return r
+        return None
+
+    def getitem_hook(self, ex, base, idx):
+        for h in self.getitem_hooks:
+            r = h(ex, base, idx)
+            if r is not None:
+                return r
+        return None
+
+    def setitem_hook(self, ex, base, idx, v):
+        return any(h(ex, base, idx, v) for h in self.setitem_hooks)
+
+    def hasattr_hook(self, ex, v, nm):
+        for h in self.hasattr_hooks:
+            r = h(ex, v, nm)
+            if r is not None:
+                return r
+        return None
+
+    def callable_hook(self, ex, v):
+        for h in self.callable_hooks:
+            r = h(ex, v)
+            if r is not None:
+                return r
+        return None
+
+    def resolve_path(self, ex, path):
+        g = self.path_getters.get(path)
+        if g is not None:
+            return g(ex)
+        return super().resolve_path(ex, path)
+
+    def attr_known_absent(self, v, nm):
+        return True
 
     # ---------------------------------------------------------------- enums
     def _setup_onnx_ir_enums(self):
@@ -58,6 +115,10 @@ class RepoWorld(World):
         self.enums["AttributeType"]["alias_paths"] = ["onnx_ir.AttributeType"]
 
     def method_hook(self, ex, recv, name, args, kw):
+        for h in self.method_hooks:
+            r = h(ex, recv, name, args, kw)
+            if r is not None:
+                return r
         if isinstance(recv, VEnum) and recv.enum == "DataType":
             code = recv.term
             if name == "is_integer":
